@@ -1327,6 +1327,31 @@ func checkC11(w *World, r *Report) {
 			r.Fail("C11.R4", "Response.PID", "Response.PID returns the pid it was registered under", w.fnPos(rpid), why)
 		}
 	}
+	// R5: "the reply reaches its own requester": the responder handles one message at a time (its Context.sender is the
+	// sender of the message being handled), which is the single-worker protocol of C02
+	r.Rule("C11.R5", "the responding actor runs one Receive at a time: worker token protocol (C02.R1-R4)", 6)
+	importRules(w, r, checkC02, "C02", "C11.R5", func(o *Obligation) bool {
+		return o.Rule == "C02.R1" || o.Rule == "C02.R2" || o.Rule == "C02.R3" || o.Rule == "C02.R4"
+	})
+	// R6: when Result returns, the response PID is gone: Registry.Remove deletes under the write lock before it returns
+	r.Rule("C11.R6", "Registry.Remove deletes the entry synchronously (under the lock, on every path, no goroutine)", 1)
+	{
+		g := w.FGI(a.regRemove)
+		D := make([]bool, len(g.ins))
+		async := false
+		for i, in := range g.ins {
+			if c, ok := in.(*ssa.Call); ok {
+				if args, isD := isBuiltinCall(c, "delete"); isD && strings.HasSuffix(w.pathOf(args[0]), ".lookup") {
+					D[i] = true
+				}
+			}
+			if _, isGo := in.(*ssa.Go); isGo {
+				async = true
+			}
+		}
+		r.Check(g.AfterEntry(D) && !async, "C11.R6", fname(a.regRemove)+":synchronous", "Registry.Remove has deleted the entry when it returns", w.fnPos(a.regRemove),
+			"Remove can return before the entry is gone (conditional or deferred to a goroutine): after Result() the response PID still swallows a late reply instead of dead-lettering it, and a stopped actor's id is not free yet")
+	}
 }
 
 // retPaths renders the results of the return at node x, resolving result spills
